@@ -88,9 +88,9 @@ extern "C" int LLVMFuzzerTestOneInput(const uint8_t* data, size_t size) {
         // 32-byte buffer for load (short inputs are padded from a valid image so the header is often right)
         std::vector<uint8_t> b = fdp.ConsumeBytes<uint8_t>(32); model::Seed ms; auto img = model::image(ms); for (size_t i = b.size(); i < 32; i++) b.push_back(img[i]);
         if (fdp.ConsumeBool()) memcpy(b.data(), "POLYSEED", 8);
-        uint8_t* in = (uint8_t*)malloc(32); memcpy(in, b.data(), 32); if (allocfail) k.fail_all = true;
+        unsigned off = mask & 1u; uint8_t* raw = (uint8_t*)malloc(32 + off); uint8_t* in = raw + off; memcpy(in, b.data(), 32); if (allocfail) k.fail_all = true;   // odd start address half of the time
         polyseed_data* s = nullptr; int st = polyseed_load(in, &s); k.fail_all = false;
-        if (memcmp(in, b.data(), 32) != 0) oracle_fail("load modified its input", data, size); free(in);
+        if (memcmp(in, b.data(), 32) != 0) oracle_fail("load modified its input", data, size); free(raw);
         if (!(st == 0 || st == model::FORMAT || st == model::CHECKSUM || st == model::UNSUPPORTED || st == model::MEMORY)) oracle_fail("load returned undocumented status " + std::to_string(st), data, size);
         if (allocfail && st != model::MEMORY && k.alloc_failed) oracle_fail("allocation failed in load but status is not MEMORY", data, size);
         if (st == 0) { lib::Image back = lib::store(s); if (memcmp(back.data(), b.data(), 32) != 0) oracle_fail("load accepted a buffer that store does not reproduce", data, size); polyseed_free(s); }
